@@ -13,6 +13,7 @@ pub mod c13;
 pub mod c11;
 pub mod c17;
 pub mod c15;
+pub mod c20;
 
 /// Run `f` on a helper thread; exit with code 4 (hang verdict) if it does not return in time.
 pub fn c14_hang_guard<T: Send + 'static>(what: &str, secs: u64, f: impl FnOnce() -> T + Send + 'static) -> T {
